@@ -34,7 +34,8 @@ MANIFEST = {
             'no pilot is eligible, the session\'s sandboxes for the bound '
             'pilot, round-robin balance within a batch, and for backfilling '
             'the eligibility window, the high-water mark before each '
-            'assignment and usage zero after all tasks finished.',
+            'assignment and usage zero after all tasks finished.'
+            "  Second session: remove commands name several pilots in any order, 'churn' histories remove/re-add often, task notifications include the full intermediate one the agent's output stager sends (TMGR_STAGING_OUTPUT_PENDING with all details); the usage model counts a task from its assignment to its first post-execution notification within one add-period.",
     'note': 'session sandbox functions are a stub (the oracle checks that the '
             'sandboxes belong to the bound pilot); valid command sequences '
             'only (remove only what was added), as TaskManager enforces.'}
